@@ -614,6 +614,33 @@ def run(ctx, report):
             R8.violation(inst, 'asm-validity:%s' % pr, '_dis rejects (opcode, mandatory prefix) pairs with %s, which the assembler never consults: it offers encodings the '
                          'disassembler reports as no instruction' % pr, where(arch, ac), witness="asm('andss xmm0, xmm1') == f3 0f 54 c1")
 
+    # ---------------------------------------------------------------- D11 segment override of a string operand (shared with C03.D5)
+    R11 = report.rule('C02.D11', 'string instructions written with explicit operands: the segment override on the source operand reaches the encoding, wherever that operand stands '
+                      '(movs / cmps / lods / outs and the es: destinations; special_opcodes, the elision of __str__ and normalize_args evaluated on family x override)', floor=12)
+    from .c03 import string_trip_rule
+    string_trip_rule(ctx, R11, X)
+
+    # ---------------------------------------------------------------- D10 condition-code spellings
+    R10 = report.rule('C02.D10', 'every spelling the assembler accepts for a condition code (cond_list, all aliases of jcc / setcc / cmovcc) is an IA-32 spelling of that very code', floor=16)
+    from ..irsets import load_cc_ref
+    ccref = load_cc_ref()
+    cl = E.get('cond_list')
+    if not isinstance(cl, list) or len(cl) != 16:
+        raise AnalysisError('ia32_arch.cond_list is not a list of 16 alias lists')
+    for code, names in enumerate(cl):
+        want = set(ccref[code]['names'])
+        inst = 'cond_list[%d]' % code
+        wrong = [n_ for n_ in names if n_ not in want]
+        if not names:
+            R10.violation(inst, 'cond_list:%d:empty' % code, 'condition code %d has no spelling' % code, where(arch, arch.assigns['cond_list'][-1]))
+        elif wrong:
+            home = [c_ for c_, ent in ccref.items() if wrong[0] in ent['names']]
+            R10.violation(inst, 'cond_list:%d:%s' % (code, wrong[0]), 'cond_list[%d] lists %r: j%s / set%s / cmov%s are then assembled with condition code %d (%s); IA-32: %s'
+                          % (code, wrong[0], wrong[0], wrong[0], wrong[0], code, '/'.join(sorted(want)), ('code %d' % home[0]) if home else 'no such condition'),
+                          where(arch, arch.assigns['cond_list'][-1]), witness="asm('jng 2') == 7c 02 (jl)")
+        else:
+            R10.ok(inst, sample='cond_list[%d] = %s' % (code, names))
+
     # ---------------------------------------------------------------- D9 mandatory prefix of names shared by the mm and the xmm form
     R9 = report.rule('C02.D9', 'MMX/SSE mnemonics spelled alike for the mm and the xmm form get the 0x66 prefix exactly when an operand is an xmm register, wherever it stands', floor=100)
     mm_if = None
@@ -752,6 +779,7 @@ def _conds(node, fn):
 
 
 MUTANTS = [
+    ('condlist-alias-swapped', 'miasmx/arch/ia32_arch.py', '             ["nge","l"],\n             ["nl","ge"],\n             ["ng","le"],', '             ["ng","l"],\n             ["nl","ge"],\n             ["nge","le"],', 'C02.D10'),
     ('in-al-dx-66', 'miasmx/arch/ia32_arch.py', "                if name in ['in', 'out'] and \\\n                        dict([_ for _ in a.items() if _[0] != 'txt']) == r_dx:\n                    # neither does the port register of in/out (always dx)\n                    continue\n", "", 'C02.D3'),
     ('asm-offers-undefined-sse', 'miasmx/arch/ia32_arch.py', "        candidate = [c for c in candidate\n                     if not (c.modifs[mmx] and mmx_undefined_form(c, prefix))]\n", "", 'C02.D8'),
     ('far-imm-last-operand', 'miasmx/arch/ia32_arch.py', "                            [imm, ims, u08, s08, u16, s16, u32, s32]]) > 1:\n                        index_im = 0\n", "                            [imm, ims, u08, s08, u16, s16, u32, s32]]) > 1:\n                        index_im = -1\n", 'C02.D7'),
